@@ -130,7 +130,7 @@ func markKinds(r *ev.Run, s *sto.Spec) {
 
 func main() {
 	ev.Main("C02", "exploration",
-		"per (backend, ingest path) session: seeded true blobs (sizes 0..64KiB+1, 1MiB in thorough; sha224/sha1/sha256; random/schema/text) each offered as itself and as 8 truncations, 4 extensions, 8 bit flips, 3 permutations, the same bytes under sha1/sha224/sha256 refs of other content, with failing sources, under refs of unknown hash names and under malformed names, before and after the true blob is stored, through 8 source-reader behaviours and 4 HTTP transports; multipart requests naming one ref twice (true bytes and a corruption, both orders); the same small-offer script (blobs at 1MiB-1/1MiB/1MiB+1 = the schema-sniffing cap, file schema blobs) behind every buffering, sniffing or re-routing store over localdisk/diskpacked children that do not re-hash, through receive/put/batch and through the stores' own ReceiveBlob with sources that fail mid-stream, once, after the last byte, or end in ErrCorruptBlob; overlapping offers of ONE ref (a valid one, a corrupt one of the same or another length or with a failing source, sometimes a third) through sources paused by the harness after their last byte or mid-stream, in 4 canonical and seeded schedules, on fresh and stored refs, on every backend through receive and recorder-driven put/batch, with the store probed while all unfinished offers are parked; plus 16MiB-1/16MiB/16MiB+1/16MiB+4KiB sessions on memory, localdisk, diskpacked, encrypt, and (receive, put; batch in thorough) behind every buffering or re-routing store (replica, namespace, proxycache, blobpacked, cond, shard, overlay) over localdisk/diskpacked children that do not re-hash; refs of unknown hash names (14 names, several as long as a supported digest) whose digest IS the sha1/sha224/sha256 of the offered bytes, or the digest of a blob stored under its real ref, at the end of every session; the memory store in cache mode (memory.NewCache(n), n from 64 B to 70000 B, more in thorough) behind receive/put/batch, called directly and through blobserver.ReceiveNoHash (also in front of memory and encrypt), with corrupt offers smaller and larger than the whole cache; the cache fill of proxycache (cache = localdisk, diskpacked, memory, cache-mode memory; origin = localdisk, diskpacked or a harness-owned store) when the origin serves truncated/extended/flipped/permuted/unrelated/over-16MiB bytes under a ref, read once or twice through the proxy, then the origin repaired or the blob dropped, and corrupt uploads through the same proxies; distinct = (backend, path, mutation, position, reader, transport, ref); every case is non-trivial (an oracle decision on outcome, fetch, stat, enumeration and hub notifications)",
+		"per (backend, ingest path) session: seeded true blobs (sizes 0..64KiB+1, 1MiB in thorough; sha224/sha1/sha256; random/schema/text) each offered as itself and as 8 truncations, 4 extensions, 8 bit flips, 3 permutations, the same bytes under sha1/sha224/sha256 refs of other content, with failing sources, under refs of unknown hash names and under malformed names, before and after the true blob is stored, through 8 source-reader behaviours and 4 HTTP transports; multipart requests naming one ref twice (true bytes and a corruption, both orders); the same small-offer script (blobs at 1MiB-1/1MiB/1MiB+1 = the schema-sniffing cap, file schema blobs) behind every buffering, sniffing or re-routing store over localdisk/diskpacked children that do not re-hash, through receive/put/batch and through the stores' own ReceiveBlob with sources that fail mid-stream, once, after the last byte, or end in ErrCorruptBlob; overlapping offers of ONE ref (a valid one, a corrupt one of the same or another length or with a failing source, sometimes a third) through sources paused by the harness after their last byte or mid-stream, in 4 canonical and seeded schedules, on fresh and stored refs, on every backend through receive and recorder-driven put/batch, with the store probed while all unfinished offers are parked; plus 16MiB-1/16MiB/16MiB+1/16MiB+4KiB sessions on memory, localdisk, diskpacked, encrypt, and (receive, put; batch in thorough) behind every buffering or re-routing store (replica, namespace, proxycache, blobpacked, cond, shard, overlay) over localdisk/diskpacked children that do not re-hash; refs of unknown hash names (14 names, several as long as a supported digest) whose digest IS the sha1/sha224/sha256 of the offered bytes, or the digest of a blob stored under its real ref, at the end of every session; the memory store in cache mode (memory.NewCache(n), n from 64 B to 70000 B, more in thorough) behind receive/put/batch, called directly and through blobserver.ReceiveNoHash (also in front of memory and encrypt), with corrupt offers smaller and larger than the whole cache; the cache fill of proxycache (cache = localdisk, diskpacked, memory, cache-mode memory; origin = localdisk, diskpacked or a harness-owned store) when the origin serves truncated/extended/flipped/permuted/unrelated/over-16MiB bytes under a ref, read once or twice through the proxy, then the origin repaired or the blob dropped, and corrupt uploads through the same proxies; blobserver.ReceiveNoHash with 16MiB-1/16MiB/16MiB+1/16MiB+4KiB bodies in front of localdisk, diskpacked, memory (and every buffering or re-routing store in thorough); after every boundary session a scan of the bottom of the tree (memory leaves, localdisk files, diskpacked pack records) for anything over 16 MiB, with a 16MiB-8KiB blob through encrypt whose ciphertext is seen there; proxycache with caches that do not re-hash over origins that refuse (memory given corrupt bytes through the proxy's ReceiveBlob / ReceiveNoHash, encrypt given blobs around the limit through receive/put), judged through the proxy and in the cache store; distinct = (backend, path, mutation, position, reader, transport, ref); every case is non-trivial (an oracle decision on outcome, fetch, stat, enumeration and hub notifications)",
 		run)
 }
 
@@ -156,6 +156,8 @@ func run(r *ev.Run) {
 	r.Assume("a cache (memory.NewCache) may drop an accepted blob again by its documented LRU rule: in cache-mode sessions an accepted blob that is absent later is recorded, not reported; whatever is present is judged as everywhere else")
 	r.Assume("the cache fill of proxycache on a read miss is an ingest path into the cache store ('for every ingest path and every backend behind it'): the cache store may hold under a ref only bytes that hash to it within the cap; what the proxy returns for a read while the origin is rotten is not judged, only the cache store, its hub, and reads after the origin was repaired or dropped the blob")
 	r.Assume("blobserver.ReceiveNoHash in front of a store that verifies by itself (memory, memory in cache mode, encrypt) is judged like that store called directly, plus the hub notification it sends on success")
+	r.Assume("blobserver.ReceiveNoHash leaves the digest to the store but applies the 16 MiB bound exactly as Receive does (receive.go limits the source of both; the storage layers forward their own blobs through it): more than 16 MiB offered through it must be refused whatever store is behind it, and no store at the bottom of a tree may end up holding a blob over the limit")
+	r.Assume("a proxycache over an origin that refuses an offer (a self-verifying origin given corrupt bytes through an unverified path, an encrypting origin given a blob whose ciphertext is over the limit) is judged like any store: the refused offer leaves no trace, neither through the proxy nor in its cache store")
 	r.Assume("absence of hub listener notifications is observed after a bounded settle; an unwarranted notification arriving later than that would be missed, never invented")
 	root := ev.Scratch("c02")
 	defer os.RemoveAll(root)
@@ -196,6 +198,10 @@ func run(r *ev.Run) {
 	// round 5 families (appended)
 	jobs = append(jobs, cacheModeJobs(r, &n)...)
 	jobs = append(jobs, cacheFillJobs(r, &n)...)
+	// round 6 families (appended)
+	r6jobs, r6big := round6Jobs(r, &n)
+	jobs = append(jobs, r6jobs...)
+	bigJobs = append(bigJobs, r6big...)
 
 	bd := newBigData(r)
 	var wg sync.WaitGroup
@@ -248,6 +254,7 @@ func run(r *ev.Run) {
 	requireOverlap(r)
 	requireCacheMode(r)
 	requireCacheFill(r)
+	requireRound6(r)
 	for _, p := range []string{"receive", "put", "batch", "direct", "nohash"} {
 		for _, h := range hashNames {
 			r.Require("unknown_hash", p+"/arbitrary-digest", p+"/digest-is-"+h+"-of-bytes")
@@ -268,7 +275,7 @@ func runJob(r *ev.Run, root string, j job, bd *bigData) {
 		runCacheFill(r, root, j)
 		return
 	}
-	s, err := newSession(r, root, j.id, j.spec, j.path)
+	s, err := newSession(r, root, j.id, j.spec, j.path, planFor(j))
 	if err != nil {
 		r.Inconclusive(fmt.Sprintf("session %s: %v", j.id, err))
 		return
@@ -285,6 +292,10 @@ func runJob(r *ev.Run, root string, j job, bd *bigData) {
 	}
 	if j.mode == "overlap" {
 		s.overlapScript()
+	} else if j.mode == "nohash-cap" {
+		s.nohashCapScript(bd)
+	} else if j.mode == "pxover-big" {
+		s.pxBigScript(bd)
 	} else if j.path == "direct-src" {
 		s.directSrcScript()
 	} else if j.wrap {
@@ -296,6 +307,7 @@ func runJob(r *ev.Run, root string, j job, bd *bigData) {
 	}
 	s.finish()
 	if j.big {
+		s.scanBelow()
 		s.releaseBig()
 	}
 	if s.n > 0 && j.path != "batch" {
